@@ -536,7 +536,63 @@ pub fn prop_with(case: &Case, known_deleg: bool) -> Outcome {
         }
         let mut extra_sig = doc.clone();
         extra_sig["signatures"].as_array_mut().unwrap().insert(0, json!({"keyid": key(11).keyid, "sig": "ab".repeat(64)}));
+        // every string (member names and values) spelled with \uXXXX escapes, as ASCII-only writers do
+        let mut escaped = String::new();
+        {
+            fn esc_str(s: &str, out: &mut String) {
+                out.push('"');
+                let mut buf = [0u16; 2];
+                for (i, c) in s.chars().enumerate() {
+                    // every non-ASCII character, and every second ASCII one
+                    if !c.is_ascii() || i % 2 == 0 {
+                        for u in c.encode_utf16(&mut buf) {
+                            out.push_str(&format!("\\u{:04x}", u));
+                        }
+                    } else {
+                        match c {
+                            '"' => out.push_str("\\\""),
+                            '\\' => out.push_str("\\\\"),
+                            c if (c as u32) < 0x20 => out.push_str(&format!("\\u{:04x}", c as u32)),
+                            c => out.push(c),
+                        }
+                    }
+                }
+                out.push('"');
+            }
+            fn esc(v: &Value, out: &mut String) {
+                match v {
+                    Value::Object(m) => {
+                        out.push('{');
+                        for (i, (k, x)) in m.iter().enumerate() {
+                            if i > 0 {
+                                out.push(',');
+                            }
+                            esc_str(k, out);
+                            out.push(':');
+                            esc(x, out);
+                        }
+                        out.push('}');
+                    }
+                    Value::Array(a) => {
+                        out.push('[');
+                        for (i, x) in a.iter().enumerate() {
+                            if i > 0 {
+                                out.push(',');
+                            }
+                            esc(x, out);
+                        }
+                        out.push(']');
+                    }
+                    Value::String(t) => esc_str(t, out),
+                    other => out.push_str(&serde_json::to_string(other).unwrap()),
+                }
+            }
+            esc(doc, &mut escaped);
+            // the harness' own sanity: the rewrite denotes the same JSON value
+            assert_eq!(&serde_json::from_str::<Value>(&escaped).expect("escaped rewrite parses"), doc);
+        }
         let neutral: Vec<(&str, Vec<u8>)> = vec![
+            ("strings spelled with \\uXXXX escapes", escaped.into_bytes()),
             ("pretty-printed", serde_json::to_vec_pretty(doc).unwrap()),
             ("members re-ordered and re-spaced", reversed.into_bytes()),
             ("extra signature entry by an unknown key", serde_json::to_vec(&extra_sig).unwrap()),
@@ -642,7 +698,7 @@ pub fn check(ctx: &Ctx) -> Vec<PartReport> {
         ctx,
         PartSpec {
             name: "mutants",
-            rule: "random forged repositories (root chain of two, one key shared by timestamp / snapshot / targets / delegated role, custom data on targets, glob or hash-prefix delegation) with 0..7 unknown members of random JSON shape injected before signing at 11 object levels (root top level, roles.targets, roles.root, timestamp/snapshot top level, their meta entries, targets top level, target entries, hashes, delegated role top level). For each of root, timestamp, snapshot, targets and the delegated role: three neutral rewrites (must load and expose the same content) and EVERY single-point mutation of the signed portion (change of each scalar, member insertion at each object, deletion of each member, duplication of each scalar member with another value before/after, array element deletion/duplication/swap), served with the original signatures; plus six role swaps between documents sharing a key. Evaluations count mutants. Oracle: Ok => the content exposed through public fields equals that of the signed original. Non-trivial: every case; distinct = (extras, flags)",
+            rule: "random forged repositories (root chain of two, one key shared by timestamp / snapshot / targets / delegated role, custom data on targets, glob or hash-prefix delegation) with 0..7 unknown members of random JSON shape injected before signing at 11 object levels (root top level, roles.targets, roles.root, timestamp/snapshot top level, their meta entries, targets top level, target entries, hashes, delegated role top level). For each of root, timestamp, snapshot, targets and the delegated role: four neutral rewrites (pretty-printed; members re-ordered and re-spaced; an extra signature entry by an unknown key; every string spelled with \\uXXXX escapes as ASCII-only writers do: must load and expose the same content) and EVERY single-point mutation of the signed portion (change of each scalar, member insertion at each object, deletion of each member, duplication of each scalar member with another value before/after, array element deletion/duplication/swap), served with the original signatures; plus six role swaps between documents sharing a key. Evaluations count mutants. Oracle: Ok => the content exposed through public fields equals that of the signed original. Non-trivial: every case; distinct = (extras, flags)",
             mode: Mode::Random { cases: n, strategy: Box::new(|| bx(case_strategy())) },
             prop: Box::new(move |c: &Case| prop_with(c, known)),
             require: vec![("has-unknown-members", n as u64 / 2), ("swap", n as u64 / 2), ("mutant-accepted-without-effect", n as u64 / 2)],
